@@ -176,6 +176,20 @@ export const REWRITES = {
     p.decls = p.decls.map((x) => (x.name === d.name ? { ...x, name: to } : x));
     return p;
   },
+  // alpha-renaming of a type parameter inside its own declaration (parameter names are local)
+  renameTypeParameter(prog, rng) {
+    const cands = prog.decls.filter((d) => (d.d === "alias" || d.d === "iface") && d.params && d.params.length);
+    if (!cands.length) return null;
+    const d = rng.pick(cands);
+    const from = rng.pick(d.params);
+    const taken = new Set([...prog.decls.map((x) => x.name), ...d.params]);
+    const to = ["Q", "T", "Elem", "P_1", "Zz"].find((n) => !taken.has(n));
+    if (!to) return null;
+    const ren = (x) => (x.k === "ref" && x.name === from && !(x.args || []).length ? { ...x, name: to } : x);
+    const p = clone(prog);
+    p.decls = p.decls.map((x) => (x.name === d.name ? { ...mapDecl(x, ren), params: x.params.map((q) => (q === from ? to : q)) } : x));
+    return p;
+  },
   wrapInIdentityGeneric(prog, rng) {
     const p = clone(prog);
     const params = typeParamsInScope(p);
@@ -278,7 +292,7 @@ export const REWRITES = {
 
 // rewrites that must leave hash256 / hash unchanged according to C13's statement (names, alias
 // boundaries, property order, member order, comments)
-export const HASH_PRESERVING = ["permuteUnionMembers", "permuteProperties", "permuteDeclarations", "introduceAlias", "inlineAlias", "renameDeclaration", "wrapInIdentityGeneric", "parenthesise", "readonlyModifiers", "comments", "interfaceToAlias", "aliasToInterface", "nestLiteralUnion"];
+export const HASH_PRESERVING = ["permuteUnionMembers", "permuteProperties", "permuteDeclarations", "introduceAlias", "inlineAlias", "renameDeclaration", "renameTypeParameter", "wrapInIdentityGeneric", "parenthesise", "readonlyModifiers", "comments", "interfaceToAlias", "aliasToInterface", "nestLiteralUnion"];
 export const ALL_REWRITES = Object.keys(REWRITES);
 
 // apply a list of [name, seed] steps; inapplicable steps are skipped; returns {prog, applied}
